@@ -1010,6 +1010,15 @@ func init() {
 							}
 							g.do("setdecor " + w + " " + rawDecor)
 							key = "text/raw"
+							// straight away once before the compared render: the first use of a decoration value
+							// is no different from the second
+							if cl0, f0 := parseRes(g.do("render " + w)); cl0 == "ok" {
+								if prev, ok := first[key]; !ok {
+									first[key] = cl0 + "|" + f0["out"]
+								} else if prev != cl0+"|"+f0["out"] {
+									viol = append(viol, "render with the hand-assembled decoration differs from its first render")
+								}
+							}
 						}
 					}
 					cl, f := parseRes(g.do("render " + w))
